@@ -49,6 +49,9 @@ func (z *ZeroconfProvider) Shutdown() {
 func (z *ZeroconfProvider) Announce(serviceName string, port int, txt []string) error {
 	logging.Log().Debug("mdns: using zeroconf")
 
+	// withdraw a previous announcement, it would stay active with its outdated data otherwise
+	z.Unannounce()
+
 	// use Zeroconf library if avahi is not available
 	// Set TTL to 2 minutes as defined in SHIP chapter 7
 	mDNSServer, err := zeroconf.Register(serviceName, shipZeroConfServiceType, shipZeroConfDomain, port, txt, z.ifaces, zeroconf.TTL(120))
